@@ -213,6 +213,9 @@ fn one_case(ctx: &Ctx, case: u64, l: &mut Local) {
     let with_kb = |k: Option<String>| Parts { jwt: parts.jwt.clone(), disclosures: parts.disclosures.clone(), kb: k };
     let a = Some(aud.as_str());
     let n = Some(nonce.as_str());
+    fn a_opt(s: &str) -> Option<&str> {
+        Some(s)
+    }
 
     // 1. KB removed / emptied / null
     for variant in 0..3 {
@@ -265,6 +268,25 @@ fn one_case(ctx: &Ctx, case: u64, l: &mut Local) {
         let x = keys::holder_jwk_json(halg, 0)["x"].as_str().unwrap_or("").to_string();
         let forged = api::sign_raw(&json!({"alg": "HS256", "typ": "kb+jwt"}), &honest_payload(), jsonwebtoken::Algorithm::HS256, &jsonwebtoken::EncodingKey::from_secret(x.as_bytes()));
         must_reject(l, "resigned-hs256-jwk-bytes", 1, &with_kb(Some(forged)), a, n, 0);
+        // HMAC of every size keyed with the RAW public key material in the forms a JWK-derived
+        // verification key is held in memory (0x04||x||y, x||y, x alone, y alone)
+        {
+            let jwk = keys::holder_jwk_json(halg, 0);
+            let xb = model::b64d(jwk["x"].as_str().unwrap_or("")).unwrap_or_default();
+            let yb = jwk.get("y").and_then(Value::as_str).and_then(|y| model::b64d(y).ok()).unwrap_or_default();
+            let mut secrets: Vec<Vec<u8>> = vec![xb.clone(), [xb.clone(), yb.clone()].concat(), [vec![4u8], xb.clone(), yb.clone()].concat(), vec![]];
+            if !yb.is_empty() {
+                secrets.push(yb.clone());
+            }
+            let mut k = 10u64;
+            for secret in secrets {
+                for (hs, a) in [("HS256", jsonwebtoken::Algorithm::HS256), ("HS384", jsonwebtoken::Algorithm::HS384), ("HS512", jsonwebtoken::Algorithm::HS512)] {
+                    let forged = api::sign_raw(&json!({"alg": hs, "typ": "kb+jwt"}), &honest_payload(), a, &jsonwebtoken::EncodingKey::from_secret(&secret));
+                    must_reject(l, "resigned-hs256-jwk-bytes", k, &with_kb(Some(forged)), a_opt(&aud), a_opt(&nonce), 0);
+                    k += 1;
+                }
+            }
+        }
         // alg none
         let hdr = model::b64e(json!({"alg": "none", "typ": "kb+jwt"}).to_string().as_bytes());
         let pl = model::b64e(honest_payload().to_string().as_bytes());
@@ -396,9 +418,13 @@ fn one_case(ctx: &Ctx, case: u64, l: &mut Local) {
             must_reject(l, "verifier-expects-other", 4, &parts, a, Some(""), 0);
         }
     }
-    // 10. only one of aud / nonce
+    // 10. only one of aud / nonce — with the KB-JWT, and with the KB-JWT removed (absent / null)
     must_reject(l, "one-of-aud-nonce", 0, &parts, a, None, 0);
     must_reject(l, "one-of-aud-nonce", 1, &parts, None, n, 0);
+    for variant in 0..3 {
+        must_reject(l, "one-of-aud-nonce", 10 + variant, &with_kb(None), a, None, variant);
+        must_reject(l, "one-of-aud-nonce", 20 + variant, &with_kb(None), None, n, variant);
+    }
 
     // 6. sd_hash absent / wrong / over another disclosure set
     {
